@@ -1,7 +1,7 @@
 """C04 - parse_cdc is total.
 
 E1 bounded-exhaustive enumeration:
- (a) every string that is a concatenation of <= N lexical atoms (28-atom alphabet; adjacent pairs that merely
+ (a) every string that is a concatenation of <= N lexical atoms (31-atom alphabet; adjacent pairs that merely
      re-spell a longer atom are skipped so that every enumerated string is distinct),
  (b) grammar-derived valid codes x all single mutations (delete / insert atom / substitute atom at every
      character position, truncate at every prefix); thorough: all double character mutations of short codes.
@@ -20,7 +20,7 @@ ID = "C04"
 LEVEL = "exploration"
 
 ATOMS = ["R", "C", "Tlm", "(", ")", "[", "]", "{", "}", "=", ",", ":", "/", "%", "!", "1", "-1", "1e", "1.5F",
-         "inf", "short", "open", "X_1", "R=", "lbl", "-", " ", "V"]
+         "inf", "short", "open", "X_1", "R=", "lbl", "-", " ", "V", "0", "1e400", "n="]
 # adjacent atom pairs whose concatenation equals a single atom (that shorter sequence is enumerated anyway)
 REDUNDANT_PAIRS = {("-", "1"), ("R", "=")}
 SMALL_ATOMS = ["R", "Tlm", "(", ")", "[", "]", "{", "}", "=", ",", ":", "/", "1", "X_1", "-", "short"]
@@ -181,6 +181,9 @@ ELEMENT_SPELLINGS = [
     "K{R=1,tau=1e-3}", "Ls{R_i=2,R_r=3}",
     "Tlm{X_1=[R],X_2=short}", "Tlm{X_1=open,X_2=zero,Z_A=inf,Z_B=(RC),Zeta=[RQ],L=2}", "Tlm{L=0.5F,Zeta=R:tl}",
     "Tlm{X_1=RC}", "Tlm{X_1=[R(RC)],Zeta=(Q[RW])}", "Tlm{Z_A=[Tlm{X_1=R}]}",
+    # values on the limits, zero exponents, numbers beyond the double range
+    "R{R=0}", "Q{n=0}", "Q{n=1}", "W{n=0}", "C{C=1e3}", "Tlmbs{n=0}", "Tlmbo{n=0}", "R{R=1e400}", "K{R=-1e400}", "La{L=0,n=0}",
+    "Tlm{X_1=[(RC)(RC)]}", "Tlm{Zeta=([RC][RQ])}",
 ]
 
 
@@ -264,7 +267,7 @@ def _valid_chunk(codes: List[str]) -> dict:
 
 def run(ctx) -> None:
     thorough = ctx.tier == "thorough"
-    ctx.rule = ("(a) all concatenations of <= N atoms of a 28-atom lexical alphabet (N=4 quick, N=5 thorough; plus N<=6 over a 16-atom "
+    ctx.rule = ("(a) all concatenations of <= N atoms of a 31-atom lexical alphabet (N=4 quick, N=5 thorough; plus N<=6 over a 16-atom "
                 "and N<=7 over a 12-atom sub-alphabet in thorough), redundant re-spellings skipped so every string is distinct; "
                 "(b) grammar-derived valid codes x every single mutation (deletion, prefix truncation, insertion and substitution of "
                 "each of 50 atoms at every character position); thorough: every double character mutation of the short valid codes. "
@@ -272,7 +275,7 @@ def run(ctx) -> None:
     ctx.exhaustive = True
     ctx.assumptions = ["a parse taking > 2 s counts as non-termination", "atoms outside the alphabet are reached only through mutations"]
     nmax = 5 if thorough else 4
-    ctx.pmap(_atom_chunk, _atom_jobs("28-atom", ATOMS, 0, nmax), label=f"atoms<= {nmax}")
+    ctx.pmap(_atom_chunk, _atom_jobs("31-atom", ATOMS, 0, nmax), label=f"atoms<= {nmax}")
     if thorough:
         ctx.pmap(_atom_chunk, _atom_jobs("16-atom", SMALL_ATOMS, 6, 6), label="16-atom N=6")
         ctx.pmap(_atom_chunk, _atom_jobs("12-atom", TINY_ATOMS, 7, 7), label="12-atom N=7")
